@@ -79,8 +79,8 @@ func main() {
 			return
 		}
 
-		if len(t) > 0 {
-			n := t[0]
+		for _, n := range t {
+			n = n.STRewrite(node.SymTbl{})
 			node.ByteCode(n, cr)
 			if v, err := virtM.Run(true); err == nil {
 				fmt.Println(v)
